@@ -30,22 +30,21 @@ type pingExp struct {
 }
 
 type pingVec struct {
-	Topo  string     `json:"topo"`
-	Edges [][]string `json:"edges"`
-	Src   string     `json:"src"`
-	Dst   string     `json:"dst"`
-	Dist  int        `json:"dist"`
-	Path  []string   `json:"path"`
-	Hs    []int      `json:"hs"`
-	Pings []pingExp  `json:"pings"`
-	Fates []struct {
+	Topo    string     `json:"topo"`
+	MaxHops int        `json:"maxhops"`
+	Edges   [][]string `json:"edges"`
+	Src     string     `json:"src"`
+	Dst     string     `json:"dst"`
+	Dist    int        `json:"dist"`
+	Path    []string   `json:"path"`
+	Hs      []int      `json:"hs"`
+	Pings   []pingExp  `json:"pings"`
+	Fates   []struct {
 		Kind string `json:"kind"`
 		At   string `json:"at"`
 	} `json:"fates"`
 	Trace []pingExp `json:"trace"`
 }
-
-const c10DefTTL = 6
 
 // lastEventAge returns how long ago the newest data-plane hook event arrived (routing chatter does not count).
 func lastEventAge(col *collector) time.Duration {
@@ -76,11 +75,12 @@ func runPingTopo(res *Result, col *collector, tw *traceWriter, name string, vecs
 		if oddIDs {
 			id[n] = pool[i]
 		} else {
-			id[n] = name + "-" + n
+			id[n] = fmt.Sprintf("%s.%d-%s", vecs[0].Topo, vecs[0].MaxHops, n)
 		}
 		back[id[n]] = n
 	}
-	m := mesh.New(mesh.Opts{RouteUpdate: 300 * time.Millisecond, MaxHops: c10DefTTL}, seed)
+	maxHops := vecs[0].MaxHops // maxForwardingHops of every node of this mesh: budget of notices and ping replies, length of a traceroute
+	m := mesh.New(mesh.Opts{RouteUpdate: 300 * time.Millisecond, MaxHops: byte(maxHops)}, seed)
 	defer m.StopAll()
 	for _, n := range specNames {
 		m.Start(id[n])
@@ -137,7 +137,7 @@ func runPingTopo(res *Result, col *collector, tw *traceWriter, name string, vecs
 			if err != nil {
 				errText = err.Error()
 			}
-			res.eval(fmt.Sprintf("ping|%s|%s|%s|%d", v.Topo, v.Src, v.Dst, h))
+			res.eval(fmt.Sprintf("ping|%s|%d|%s|%s|%d", v.Topo, v.MaxHops, v.Src, v.Dst, h))
 			res.count("pings")
 			if errText != exp.Err || from != id[exp.From] {
 				if errText == "timeout" || errText == "user cancelled" {
@@ -170,7 +170,7 @@ func runPingTopo(res *Result, col *collector, tw *traceWriter, name string, vecs
 
 				continue
 			}
-			res.eval(fmt.Sprintf("send|%s|%s|%s|%d", v.Topo, v.Src, v.Dst, h))
+			res.eval(fmt.Sprintf("send|%s|%d|%s|%s|%d", v.Topo, v.MaxHops, v.Src, v.Dst, h))
 			res.count("sends")
 			arrive := v.Fates[i].Kind == "arrive"
 			var ok bool
@@ -238,8 +238,13 @@ func runPingTopo(res *Result, col *collector, tw *traceWriter, name string, vecs
 			got = append(got, pingExp{From: r.From, Err: e})
 		}
 		cancel()
-		res.eval(fmt.Sprintf("traceroute|%s|%s|%s", v.Topo, v.Src, v.Dst))
+		res.eval(fmt.Sprintf("traceroute|%s|%d|%s|%s", v.Topo, v.MaxHops, v.Src, v.Dst))
 		res.count("traceroutes")
+		if v.Dist == v.MaxHops {
+			res.count("traceroutes_at_the_hop_limit")
+		} else if v.Dist > v.MaxHops {
+			res.count("traceroutes_beyond_the_hop_limit")
+		}
 		same := len(got) == len(v.Trace)
 		for i := 0; same && i < len(got); i++ {
 			if got[i].From != id[v.Trace[i].From] || got[i].Err != "" {
@@ -260,7 +265,11 @@ func runPingTopo(res *Result, col *collector, tw *traceWriter, name string, vecs
 				for _, g := range got {
 					gl = append(gl, fmt.Sprintf("%s(%s)", back[g.From], g.Err))
 				}
-				res.violate("C10:traceroute-not-the-path", fmt.Sprintf("%s: Traceroute %s->%s listed %v; the path is %v", name, v.Src, v.Dst, gl, v.Path),
+				want := []string{}
+				for _, w := range v.Trace {
+					want = append(want, w.From)
+				}
+				res.violate("C10:traceroute-not-the-path", fmt.Sprintf("%s (maxForwardingHops %d): Traceroute %s->%s (distance %d) listed %v; expected %v (path %v)", name, v.MaxHops, v.Src, v.Dst, v.Dist, gl, want, v.Path),
 					map[string]any{"vector": v, "got": got})
 			}
 		}
@@ -283,7 +292,7 @@ func runPingTopo(res *Result, col *collector, tw *traceWriter, name string, vecs
 		snd[n].close()
 	}
 	if tw != nil {
-		res.add("trace_lines", tw.segment(col.Since(ev0), c10DefTTL, true))
+		res.add("trace_lines", tw.segment(col.Since(ev0), maxHops, true))
 	}
 }
 
@@ -970,10 +979,11 @@ func cmdC10(args []string) {
 	byTopo := map[string][]pingVec{}
 	var order []string
 	for _, v := range vecs {
-		if _, ok := byTopo[v.Topo]; !ok {
-			order = append(order, v.Topo)
+		key := fmt.Sprintf("%s/%d", v.Topo, v.MaxHops)
+		if _, ok := byTopo[key]; !ok {
+			order = append(order, key)
 		}
-		byTopo[v.Topo] = append(byTopo[v.Topo], v)
+		byTopo[key] = append(byTopo[key], v)
 	}
 	sort.Strings(order)
 	for i, name := range order {
